@@ -37,9 +37,13 @@ What is proved here (over the models `Kdf.Model.Layout`, `Kdf.Model.Scan`, tied 
   given the scanner specifications (any paging form);
 * `x64_highest_linear_sound` — the same with the scanner specifications discharged for x86-64: no hypothesis
   about the scanners is left.
+* `check_pae_sound`, `ia32_root_exact`, `xen_text_pick_sound` (end of file) — three probing decisions of the set-up code
+  (model `Kdf.Model.OsPick`, tied to the C code per image by the `ospick` ops of the `os` stream): `check_pae` accepts a
+  paging form only if the start of the direct mapping walks to physical 0 under it; `get_linux_pgt_root` (ia32) hands CR3
+  to the walk unchanged; the Xen text probe never takes an image with a 3.2-3.4 text mapping for a 4.0-dev snapshot.
 
-What is NOT proved: the decision logic of `x86_64.c` (`linux_directmap_by_pgt`, `linux_ktext_extents`,
-`map_xen_x86_64`) and of the other architecture files — covered by the image stream of
+What is NOT proved: the rest of the decision logic of `x86_64.c` (`linux_directmap_by_pgt`, `linux_ktext_extents`,
+the other branches of `map_xen_x86_64`) and of the other architecture files — covered by the image stream of
 tools/props/c08.py (property evaluated on the implementation against an independent walk).
 -/
 namespace Kdf.Props.C08
